@@ -4,6 +4,8 @@ go 1.23.8
 
 require (
 	github.com/99designs/gqlgen v0.0.0
+	github.com/google/uuid v1.6.0
+	github.com/gorilla/websocket v1.5.0
 	github.com/vektah/gqlparser/v2 v2.5.25
 	golang.org/x/sync v0.13.0
 )
@@ -11,8 +13,6 @@ require (
 require (
 	github.com/agnivade/levenshtein v1.2.1 // indirect
 	github.com/go-viper/mapstructure/v2 v2.2.1 // indirect
-	github.com/google/uuid v1.6.0 // indirect
-	github.com/gorilla/websocket v1.5.0 // indirect
 	github.com/hashicorp/golang-lru/v2 v2.0.7 // indirect
 	github.com/sosodev/duration v1.3.1 // indirect
 	golang.org/x/mod v0.24.0 // indirect
